@@ -177,7 +177,23 @@ func (e *Env) c04CloseConnection(typ string) {
 		obO.Check(must[n]&evDel != 0 && must[n]&evLen != 0 && may[n]&evClose == 0, g.Where(n), "delete and test precede the single close", "close is not preceded by delete+test on every path, or may execute twice")
 	}
 	li := e.locksets(g)
-	for _, n := range append(append(append([]*core.Node{}, dels...), lens...), closes...) {
+	var mapReads []*core.Node
+	for _, n := range g.Nodes {
+		if n.Kind == core.KAfter {
+			continue
+		}
+		switch x := n.Instr.(type) {
+		case *ssa.Lookup:
+			if f := fieldOfLoad(x.X); f != nil && f.Name() == "RemotePorts" {
+				mapReads = append(mapReads, n)
+			}
+		case *ssa.Range:
+			if f := fieldOfLoad(x.X); f != nil && f.Name() == "RemotePorts" {
+				mapReads = append(mapReads, n)
+			}
+		}
+	}
+	for _, n := range append(append(append(append([]*core.Node{}, dels...), lens...), closes...), mapReads...) {
 		held := li.held(li.must[n])
 		ok := false
 		for _, h := range held {
@@ -186,6 +202,27 @@ func (e *Env) c04CloseConnection(typ string) {
 			}
 		}
 		obL.Check(ok, g.Where(n), "closeLock held", nodeDesc(n)+" with must-held lockset {"+strings.Join(held, ",")+"}: two upstreams closing concurrently can both see len == 0 (double close) or corrupt the map")
+	}
+	// ... and the lock is given back: at every normal return nothing is still held (the next upstream that closes into
+	// this port would block forever, and with it its whole process)
+	obU := r.Ob("R2", "(*"+typ+").CloseConnection:unlock", "the port's lock is released on every returning path")
+	nRet := 0
+	for _, n := range g.Nodes {
+		if n.Kind != core.KRootRet {
+			continue
+		}
+		nRet++
+		still := li.held(li.may[n])
+		var mine []string
+		for _, h := range still {
+			if strings.Contains(h, "$"+rn+".") {
+				mine = append(mine, h)
+			}
+		}
+		obU.Check(len(mine) == 0, g.Where(n), "nothing held at return", "CloseConnection can return with "+strings.Join(mine, ",")+" still locked: the next upstream closing into this port blocks forever")
+	}
+	if nRet == 0 {
+		obU.Fail(core.FuncName(fn), "CloseConnection never returns normally")
 	}
 }
 
@@ -742,4 +779,96 @@ func rootValThroughEmbedding(c *core.Ctx, v ssa.Value) (*core.Ctx, ssa.Value) {
 		v = fa.X
 	}
 	return c, v
+}
+
+// disconnectRule (C16.R4, shared as C05.R6): cutting a connection really removes the named remote port from the out-
+// port's RemotePorts, and an out-port left without any remote is marked not-ready - which is what makes the rewiring
+// step connect it to the sink. A remote that stays registered keeps receiving items that nobody reads (the sender
+// blocks once the buffer is full); a port that stays "ready" with no remote is never drained by the sink.
+func (e *Env) disconnectRule(rule string) {
+	r := e.R
+	p := e.P
+	for _, typ := range []string{"OutPort", "OutParamPort"} {
+		ob := r.Ob(rule, "(*"+typ+").Disconnect", "the named remote port is deleted from RemotePorts on every returning path; with none left the port is marked not ready, otherwise it stays ready")
+		fn := p.DeclaredMethod("scipipe", typ, "Disconnect")
+		if fn == nil || len(fn.Params) != 2 {
+			ob.Unknown("-", "method not found")
+			continue
+		}
+		g := e.XG(fn)
+		if g == nil {
+			continue
+		}
+		recv, name := ssa.Value(fn.Params[0]), ssa.Value(fn.Params[1])
+		isDel := func(n *core.Node) bool {
+			if !n.IsBuiltin("delete") || n.Kind == core.KAfter {
+				return false
+			}
+			f := fieldOfLoad(n.Call.Args[0])
+			if f == nil || f.Name() != "RemotePorts" {
+				return false
+			}
+			u, ok := n.Call.Args[0].(*ssa.UnOp)
+			if !ok {
+				return false
+			}
+			fa, ok := u.X.(*ssa.FieldAddr)
+			if !ok {
+				return false
+			}
+			_, b := rootVal(n.Ctx, fa.X)
+			_, k := rootVal(n.Ctx, n.Call.Args[1])
+			return b == recv && k == name
+		}
+		isLen := func(n *core.Node) bool {
+			if !n.IsBuiltin("len") || n.Kind == core.KAfter {
+				return false
+			}
+			f := fieldOfLoad(n.Call.Args[0])
+			return f != nil && f.Name() == "RemotePorts"
+		}
+		isReadyFalse := func(n *core.Node) bool {
+			st, ok := n.Instr.(*ssa.Store)
+			if !ok {
+				return false
+			}
+			fa, ok := st.Addr.(*ssa.FieldAddr)
+			if !ok || fieldOfAddr(fa) == nil || fieldOfAddr(fa).Name() != "ready" {
+				return false
+			}
+			_, v := rootVal(n.Ctx, st.Val)
+			k, ok := v.(*ssa.Const)
+			return ok && k.Value != nil && !constant.BoolVal(k.Value)
+		}
+		isRet := func(m *core.Node) bool { return m.Kind == core.KRootRet }
+		entry := g.Run(core.Scenario{Start: g.Entry, AtEntry: true})
+		okAll := true
+		if len(g.Select(isDel)) == 0 {
+			okAll = false
+			ob.Fail(core.FuncName(fn), "the named remote port is never deleted from the receiver's RemotePorts: the cut connection stays, items are still sent to a process that does not run")
+		} else if entry.ReachesAvoiding(isRet, isDel) != nil {
+			okAll = false
+			ob.Fail(core.FuncName(fn), "Disconnect can return without having deleted the named remote port")
+		}
+		lens := g.Select(isLen)
+		if len(lens) == 0 {
+			okAll = false
+			ob.Fail(core.FuncName(fn), "no test of how many remote ports are left: a port without consumers is not marked not-ready and is never wired to the sink")
+		}
+		for _, ln := range lens {
+			r0 := g.Run(core.Scenario{Start: ln, Result: core.IntAV(0)})
+			r1 := g.Run(core.Scenario{Start: ln, Result: core.IntAV(1)})
+			if r0.ReachesAvoiding(isRet, isReadyFalse) != nil {
+				okAll = false
+				ob.Fail(g.Where(ln), "with no remote port left Disconnect can return without marking the port not ready: the rewiring step does not connect it to the sink, its process blocks on the first send that nobody receives")
+			}
+			if r1.Reaches(isReadyFalse) != nil {
+				okAll = false
+				ob.Fail(g.Where(ln), "with a remote port left the port is marked not ready: it would be wired to the sink in addition to its consumer")
+			}
+		}
+		if okAll {
+			ob.OK(core.FuncName(fn), "delete(RemotePorts, name) on every path; len=0 ⇒ ready=false; len=1 ⇒ stays ready")
+		}
+	}
 }
